@@ -129,6 +129,12 @@ def convs(rng, tier):
         c = S.Conv(sid, direction=direction, local_as=las, remote_as=ras, local_id=lid, on_open=on_open,
                    hold=rng.choice([0, 90, 180]), tag="open.%s.%s" % (fault, direction))
         c.send(S.frame(S.OPEN, body)).send(S.frame(S.KEEPALIVE))
+        if rng.random() < 0.4:
+            # the session goes on with messages that have a body: what OnOpenMessage was handed (kept by the plugin by reference)
+            # must still read the same afterwards
+            c.send(S.frame(S.UPDATE, bytes([0xEE]) * rng.choice([4, 64, 300])))
+            if rng.random() < 0.5:
+                c.send(S.frame(S.NOTIF, S.notif_body(6, 2, b"\xDD" * 40)))
         c.meta = {"acceptable": acceptable, "fault": fault, "id": struct.unpack(">I", body[5:9])[0], "caps": parse_caps(body)}
         c.judge = judge
         out.append(c)
